@@ -113,7 +113,7 @@ def isolated(fn, arg, timeout=60, as_limit=DEFAULT_AS_LIMIT):
     return _finish(pid, chunks, killed, timeout)
 
 
-def pmap(fn, tasks, jobs=None, timeout=300, as_limit=DEFAULT_AS_LIMIT, deadline=None):
+def pmap(fn, tasks, jobs=None, timeout=300, as_limit=DEFAULT_AS_LIMIT, deadline=None, abort=None):
     """Yield (task_index, result) in completion order.  `tasks` is a list.  When
     `deadline` (time.monotonic value) passes, no new task is started (running ones finish);
     tasks never started are reported as ('skipped', None)."""
@@ -123,7 +123,7 @@ def pmap(fn, tasks, jobs=None, timeout=300, as_limit=DEFAULT_AS_LIMIT, deadline=
     live = {}   # rfd -> [pid, idx, chunks, t_deadline]
     while pending or live:
         while pending and len(live) < jobs:
-            if deadline is not None and time.monotonic() > deadline:
+            if (deadline is not None and time.monotonic() > deadline) or (abort is not None and abort()):
                 while pending:
                     yield pending.pop(), ('skipped', None)
                 break
